@@ -122,7 +122,42 @@ def tables : String :=
     s!"{s.cls}.{s.method}:cached={s.cached}:key={showCsv s.keyAttrs}:reads={showCsv (s.reads.map (fun r => r.attr ++ "@" ++ (match r.kind with | .direct => "d" | .closure => "c" | .frozen => "f")))}:ok={siteOK isPublic s}")
   let cs := copySites.map (fun c => s!"{c.cls}.{c.method}:{repr c.kind}:ok={copyOK c}")
   let as := arraySites.map (fun s => s!"{s.func}:{s.param}:rank={s.rank}:safe={siteSafe s}")
+  let gs := argStores.map (fun s =>
+    s!"{s.func}:{s.param}:{match s.kind with | .none => "none" | .content => "content" | .identity => "identity"}:ok={argStoreOK s}")
   " ".intercalate ms ++ " || " ++ " ".intercalate cs ++ " || " ++ " ".intercalate as
+    ++ " || " ++ " ".intercalate gs
+
+/-! histories of calls with caller-owned tables: `args <site> new 1,2;call 0;mut 0 7,2;call 0`
+    answers, per call, with the table values the returned result was computed from -/
+
+def argStep (kind : ArgKeyKind) (st : TState (List Val)) (tok : String) : TState (List Val) × String :=
+  match words tok with
+  | ["new", c] =>
+    match csvInt c with
+    | some c => ((stepT kind (fun x => x) st (.newTable c)).1, s!"id={st.tables.length}")
+    | none => (st, "bad-op")
+  | ["mut", t, c] =>
+    match t.toNat?, csvInt c with
+    | some t, some c => ((stepT kind (fun x => x) st (.mutate t c)).1, "ok")
+    | _, _ => (st, "bad-op")
+  | ["call", t] =>
+    match t.toNat? with
+    | some t =>
+      let r := stepT kind (fun x => x) st (.call t)
+      match r.2 with
+      | some out => (r.1, showCsv out)
+      | none => (st, "bad-op")
+    | none => (st, "bad-op")
+  | _ => (st, "bad-op")
+
+def argRun (site : Nat) (toks : List String) : String :=
+  match argStores[site]? with
+  | none => "bad-op"
+  | some s =>
+    let r := toks.foldl (fun (acc : TState (List Val) × List String) tok =>
+      let (st', out) := argStep s.kind acc.1 tok
+      (st', acc.2 ++ [out])) (initT, [])
+    ";".intercalate r.2
 
 def step (line : String) : String :=
   match words line with
@@ -135,6 +170,10 @@ def step (line : String) : String :=
     | some idx, some sh, some st, some vals => siteOp idx (w == "1") sh st vals (parsePars pars)
     | _, _, _, _ => "bad-op"
   | "memo" :: rest => memoRun ((" ".intercalate rest).splitOn ";")
+  | "args" :: site :: rest =>
+    match site.toNat? with
+    | some site => argRun site ((" ".intercalate rest).splitOn ";")
+    | none => "bad-op"
   | ["tables"] => tables
   | _ => "bad-op"
 
